@@ -12,13 +12,6 @@ import (
 
 // EncodeJSONFile 编码 JSON 文件
 func EncodeJSONFile(path string, obj interface{}) error {
-	f, err := os.OpenFile(path, os.O_CREATE|os.O_TRUNC|os.O_WRONLY, os.ModePerm)
-	if err != nil {
-		return err
-	}
-
-	defer f.Close()
-
 	var formatted bytes.Buffer
 	body, err := json.Marshal(obj)
 	if err != nil {
@@ -29,12 +22,23 @@ func EncodeJSONFile(path string, obj interface{}) error {
 		return err
 	}
 
-	if _, err := f.Write(formatted.Bytes()); err != nil {
-		return err
-	}
-	if err := f.Sync(); err != nil {
+	// 先写临时文件再改名，保证任何时刻文件要么是旧内容要么是新内容
+	tmp := path + ".tmp"
+	f, err := os.OpenFile(tmp, os.O_CREATE|os.O_TRUNC|os.O_WRONLY, os.ModePerm)
+	if err != nil {
 		return err
 	}
 
-	return nil
+	if _, err = f.Write(formatted.Bytes()); err == nil {
+		err = f.Sync()
+	}
+	if cerr := f.Close(); err == nil {
+		err = cerr
+	}
+	if err != nil {
+		os.Remove(tmp)
+		return err
+	}
+
+	return os.Rename(tmp, path)
 }
